@@ -1,4 +1,5 @@
 """C03 — hub commits are a linearizable compare-and-swap (DESIGN §7 C03)."""
+import re
 from rules.common import *  # noqa: F401,F403
 from rules.hub import Hub, SERVE, LOCK, SAFE_JOIN, TMP_OF, ROOT, SAFE, TAINT, OTHER
 import dd
@@ -17,6 +18,33 @@ EXPLANATION = (
 ASSUMPTIONS = ['flock(2) excludes across processes on the served file system', 'rename(2)/unlink(2) are atomic']
 
 MUT = tables.FS_MUTATORS
+
+
+def _drop_field_classes(F, hub, body, ops_):
+    """path classes (hub.path_class at the construction site) of the struct field(s) a Drop impl removes / renames: None when an
+    operand is not a plain field of `self`"""
+    fl = flow_of(body)
+    self_ty = re.sub(r"^&(mut )?", '', body.local_ty(1)).split('<')[0]
+    fields = set()
+    for op_ in ops_:
+        os_ = [o for o in fl.origins(op_) if o.kind != 'comb']
+        if not os_ or not all(o.kind == 'param' and o.key == 1 and len(o.path) == 1 for o in os_):
+            return None
+        fields |= {o.path[0] for o in os_}
+    out = []
+    for p_, bd in F.bodies.items():
+        f2 = None
+        for bi, blk in enumerate(bd.blocks):
+            for st in blk['stmts']:
+                rv = st['rv']
+                if rv['k'] == 'agg' and rv.get('ak') == 'adt' and str(rv.get('adt')).split('<')[0] == self_ty:
+                    f2 = f2 or flow_of(bd)
+                    if bi not in f2.cfg.reachable():
+                        continue
+                    for f_ in fields:
+                        if f_ in rv.get('fields', []):
+                            out.append(hub.path_class(bd, rv['ops'][rv['fields'].index(f_)]) if bd.path in hub.graph else 'unknown')
+    return out
 
 
 def _fixed_leaf_names(F, body, op, depth=0):
@@ -117,6 +145,18 @@ def r1(ctx, F, hub):
                 continue
             if not ok and in_graph and callee(rt_).endswith('remove_dir') and labs and labs <= {SAFE, 'SIBLING'}:
                 ok = True       # removing an (empty) directory above a request path never unlinks a file: the lock is a file in a non-empty directory
+            if not ok and not in_graph and 'as std::ops::Drop>::drop' in body.path:
+                # a guard's Drop removes the file it owns (`self.tmp`): what that field holds is decided where the guard is BUILT -
+                # every construction of the struct in serve.rs must put a staging name there
+                fv = _drop_field_classes(F, hub, body, ops_)
+                if fv is not None:
+                    if fv and all(c_ == 'staging' for c_ in fv):
+                        ctx.ok('C03.R1', '%s:%s:own-staging-file' % (body.path.split('::{')[0].replace('serve::', '').replace(' ', '_'), callee(rt_).split('::')[-1]),
+                               'the Drop impl removes the staging file its guard was built with (every construction stores a staging name)', term_loc(body, rb_))
+                        continue
+                    if not fv:
+                        ctx.undecided('C03.R1', '%s removes a file named by a field whose constructions were not found' % body.path.split('::{')[0])
+                        continue
             if not ok and in_graph and labs == {ROOT}:
                 # a fixed name under the root / control directory that is positively not the lock's (an index file, a marker):
                 # replacing it by rename never touches the lock inode
